@@ -293,6 +293,8 @@ def _havoc_like(I, v, name, kind=None):
                     v.bound if isinstance(v, SSeq) else None)
     if isinstance(v, MB):
         return MB(SSeq('bytes', [('s', fresh(name, IntSeq))]))
+    if isinstance(v, list):
+        return Opaque('list', 'havoc_' + name)
     raise OutOfFragment("cannot havoc %s of kind %s (declare havoc kind in the loop spec)"
                         % (name, type(v).__name__))
 
@@ -838,6 +840,23 @@ def sb_exists_in(I, args, kw):
     if not ts:
         return False
     return lower_bool(z3.Or(*ts) if len(ts) > 1 else ts[0])
+
+
+UF_KINDS = {}
+
+
+@spec_builtin('uf')
+def sb_uf(I, args, kw):
+    """uf(name, *args): value of an uninterpreted function (memoised per argument
+    identity on this path); its kind is registered in UF_KINDS[name]."""
+    name = args[0]
+    from .builtins_model import key_identity
+    key = (name,) + tuple(key_identity(I, a)[0] for a in args[1:])
+    memo = I.path.ghost.setdefault('uf', {})
+    if key not in memo:
+        from .modular import make_symbolic
+        memo[key] = make_symbolic(I, UF_KINDS.get(name, 'opaque'), "uf_%s%d" % (name, len(memo)))
+    return memo[key]
 
 
 def _link_specrt():
